@@ -28,6 +28,7 @@ HReturns(ln) ==
   \/ ln.exc = ""
   \/ ln.exc \in ConvergenceFailures
   \/ HMayReject(ln.backend, ln.path, ln.rep, ln.brep, ln.which, ln.hassig, ln.k, ln.n)
+  \/ ln.full /\ ln.rep \in {"sparse", "linop"}     \* the full decomposition is the dense one: arrays only
 
 HCount(ln)    == Judged(ln) => ln.ongrid /\ Len(ln.vals) = Min2(ln.k, ln.n)
 HGenuine(ln)  == Judged(ln) => ln.ongrid /\ SubBag(ln.vals, ln.spec)
@@ -37,7 +38,7 @@ EigenEq(ln)   == Judged(ln) => ln.rq = 0
 Ortho(ln)     == Judged(ln) => ln.oq = 0
 \* generalized problems: B-orthonormality INSIDE a degenerate level is a convention,
 \* not part of the statement: reported as a note
-OrthoFull(ln) == Judged(ln) => ln.oqfull = 0
+OrthoFull(ln) == Judged(ln) /\ ln.gen => ln.oqfull = 0
 
 \* bound_spectrum: (smallest, largest)
 BoundsOK(ln)  == Judged(ln) => ln.ongrid /\ ln.vals = <<MinSeq(ln.spec), MaxSeq(ln.spec)>>
